@@ -61,7 +61,7 @@ def rule_context_propagated(ctx: Ctx, out: Collector) -> None:
         env = FuncEnv.of(p, u)
         for c in env.own_nodes():
             if isinstance(c, ast.Call):
-                todo.extend(t[1] for t in env.resolve_call(c) if t[0] == 'func' and t[1].module is unit.module and not t[1].is_async)
+                todo.extend(t[1] for t in env.resolve_call(c) if t[0] == 'func' and t[1].module is unit.module)
     sites, to_thread = [], []
     for u in units:
         for n in ast.walk(u.node):
